@@ -15,6 +15,12 @@ use std::task::{RawWaker, RawWakerVTable, Waker};
 /// argument of core's `atomic_load::<T, false>` — so separate scalar statics are unsafe to write.)
 pub(crate) struct Env {
     pub magic: u64,
+    /// != 0: the composite operations (write_all, send_all, read_n, recv_n and their vectored forms) return Pending
+    /// at their SECOND entry (the self-recursive re-poll after `state.reset(..)`), so that one step contract covers
+    /// "result of the inner operation -> new (resources, args) handed to reset"; the re-poll itself is the first poll
+    /// of a NotStarted operation (op.poll.not_started + the operation's encoder)
+    pub repoll_cut_on: u32,
+    pub repoll_entries: u32,
     /// != 0: `io_uring::op::poll` (singleshot) is replaced by its contract `verif_op::poll_contract`, which encodes
     /// exactly the postconditions proved by op.poll.not_started / op.poll.done.ok on the real function
     pub poll_contract: u32,
@@ -87,6 +93,8 @@ pub(crate) struct Env {
 }
 pub(crate) static mut E: Env = Env {
     magic: 0xA10A_10A1_5EED_F00D,
+    repoll_cut_on: 0,
+    repoll_entries: 0,
     poll_contract: 0,
     fallback_identity: 0,
     fallback_calls: 0,
@@ -232,6 +240,15 @@ pub(crate) fn on_lock(addr: usize) {
     }
 }
 
+pub(crate) fn repoll_cut() -> bool {
+    unsafe {
+        E.repoll_entries += 1;
+        E.repoll_cut_on != 0 && E.repoll_entries >= 2
+    }
+}
+pub(crate) fn cut_at_repoll() {
+    unsafe { E.repoll_cut_on = 1 };
+}
 pub(crate) fn use_poll_contract() {
     unsafe { E.poll_contract = 1 };
 }
